@@ -6,7 +6,5 @@ CONSTANTS
   RollbackKeepsLock = TRUE
   FailedRollbackKeepsLock = TRUE
   AtomicAcquire = TRUE
-INVARIANT InvAtMostOneWriter
-INVARIANT InvLockFreeIffNoWriter
 POSTCONDITION Accepted
 CHECK_DEADLOCK FALSE
